@@ -719,10 +719,12 @@ self.states.into_iter()
 let ghost vx_states = self.states@;
         let vx_r = vx_from_vec(self.states)
 //@rw R-PROOF count=1
+// (the pattern names the function item handed to flat_map: the ghost step below speaks about ITS contract; any other argument form —
+// e.g. an unannotated closure, which gives the verifier no postcondition — is a lost anchor (undecided), never an alarm)
 //@old
-.collect()
+.flat_map(VMState::all_values).collect()
 //@new
-.collect();
+.flat_map(VMState::all_values).collect();
         proof {
             let parts = choose|parts: Seq<Vec<RuntimeBoxedVal>>| parts.len() == vx_states.len() && (forall|i: int| 0 <= i < parts.len() ==> call_ensures(VMState::all_values, (vx_states[i],), #[trigger] parts[i])) && vx_r@ == #[trigger] concat(parts);
             lemma_concat_vals(vx_states, parts);
